@@ -267,6 +267,7 @@ class C07(Prop):
               'DK.C07.sdevice_quadratic_convex', 'DK.C07.sdevice_quadratic_not_convex', 'DK.C07.sdevice_convex',
               'DK.C07.first_order_certificate', 'DK.C07.convexOnBox_iff'],
               'DK.Props.Link': ['DK.Link.accepted_convexAcc', 'DK.Link.accepted_convexAcc_closed', 'DK.Link.sdevice_convexAcc_iff', 'DK.Link.sdevice_corner_open', 'DK.Link.idevice_corner_open', 'DK.Link.reach_convexAcc', 'DK.Link.accepted_leaf_summary', 'DK.Link.reach_summary'],
+              'DK.Props.C07mono': ['DK.C07mono.grad_ineq', 'DK.C07mono.grad_monotone', 'DK.C07mono.segment_deriv_monotone', 'DK.C07mono.leaf_deriv_monotone', 'DK.C07mono.leaf_segment_deriv_monotone'],
               'DK.Props.C07tree': ['DK.C07tree.tree_cost_convex', 'DK.C07tree.tree_cost_convex_feasible', 'DK.C07tree.leaf_cost_convex', 'DK.C07tree.leaf_cost_convex_univ', 'DK.C07tree.ofLeaf_convex', 'DK.C07tree.ofMF_convex', 'DK.C07tree.ofMF_convex_global', 'DK.C07tree.ofMF_convex_feasible', 'DK.C07tree.ofMF_not_convex_on_box', 'DK.C07tree.tree_cons_affine', 'DK.C07tree.tree_cons_convexSat', 'DK.C07tree.feasible_convex', 'DK.C07tree.feasible_convex_affine', 'DK.C07tree.feasible_convex_of_blocks', 'DK.C07tree.sdeviceCons_affine', 'DK.C07tree.sdevice_convex_part', 'DK.C07tree.socHi_not_convexSat', 'DK.C07tree.clipHi_not_convexSat', 'DK.C07tree.sdevice_feasible_not_convex', 'DK.C07tree.sublevel_convex', 'DK.C07tree.local_is_global', 'DK.C07tree.local_is_global_of_local', 'DK.C07tree.tree_sublevel_convex', 'DK.C07tree.tree_local_is_global']}
   rule = ('pairs of in-bounds flows x 4 mixing weights (1/2, 1/4, 3/4, random dyadic) for every convex-documented class at parameters on '
           'and next to the validator thresholds (b = 1, 1+1/64, non-integer b; p_l = p_h; c2 = c1, c1-1/64; efficiency 1, 63/64, 1/64; '
